@@ -53,6 +53,11 @@ type tr struct {
 	rootPk  *pkgInfo          // the package named by --pkg
 	timeInt bool              // --timeint: time.Time is Z, Before/After/Equal are comparisons
 	usesPtr bool              // the output needs lib.GoLitePtr (maps, iter_objs)
+	packed  map[string]bool   // struct types whose values are opaque handles built / read by pure parameters (--packed S)
+	chans   bool              // channels are opaque handles (--chan)
+	splitTo map[string]string // package path -> file that gets its records and functions (--split)
+	effShape map[string]bool  // functions whose skeleton also records the nesting of the ifs and the object-field reads / writes (--eff-shape F)
+	effMode  bool             // skelCalls adds the reads / writes
 	w       *world
 	fns     map[*types.Func]*fnInfo
 	structs map[*types.TypeName]*structInfo
@@ -66,7 +71,10 @@ func (t *tr) failf(n ast.Node, format string, a ...any) {
 	panic(&unsupported{fmt.Sprintf("%s: %s", t.w.pos(n), fmt.Sprintf(format, a...))})
 }
 
-func translate(repo, pkgdir string, roots, fuels, params, ifaces, shapes, require, objects, vias, devirts, stdpkgs []string, timeInt, printShapes bool) (text string, err error) {
+// extraFiles: file name -> text of the files written next to --out (--split)
+var extraFiles = map[string]string{}
+
+func translate(repo, pkgdir string, roots, fuels, params, ifaces, shapes, require, objects, vias, devirts, packeds, splits, effs, stdpkgs []string, chans, timeInt, printShapes bool) (text string, err error) {
 	defer func() {
 		if r := recover(); r != nil {
 			if u, ok := r.(*unsupported); ok {
@@ -107,6 +115,23 @@ func translate(repo, pkgdir string, roots, fuels, params, ifaces, shapes, requir
 	if timeInt {
 		t.timeInt = true
 		t.opaque["Time"] = true
+	}
+	t.packed = map[string]bool{}
+	for _, v := range packeds {
+		t.packed[strings.TrimSpace(v)] = true
+	}
+	t.chans = chans
+	t.effShape = map[string]bool{}
+	for _, v := range effs {
+		t.effShape[strings.TrimSpace(v)] = true
+	}
+	t.splitTo = map[string]string{}
+	for _, v := range splits {
+		i := strings.Index(v, "=")
+		if i < 0 {
+			return "", fmt.Errorf("bad --split %q", v)
+		}
+		t.splitTo[w.mod+"/"+filepath.ToSlash(v[:i])] = v[i+1:]
 	}
 	for _, v := range vias {
 		i := strings.Index(v, ".")
@@ -214,8 +239,26 @@ func translate(repo, pkgdir string, roots, fuels, params, ifaces, shapes, requir
 		if t.usesPtr {
 			lib += " lib.GoLitePtr"
 		}
-		hb.WriteString("From Coq Require Import List ZArith Bool.\nFrom GL Require Import " + lib + ".\nImport ListNotations.\nOpen Scope Z_scope.\n\nModule Gen.\n")
+		hb.WriteString("From Coq Require Import List ZArith Bool.\nFrom GL Require Import " + lib + ".\n")
 		return hb.String()
+	}
+	// the files that get the records and functions of the --split packages (in the order of the flags)
+	var splitFiles []string
+	splitBody := map[string]*strings.Builder{}
+	splitRecs := map[string]*strings.Builder{}
+	for _, sp := range splits {
+		f := sp[strings.Index(sp, "=")+1:]
+		if _, ok := splitBody[f]; !ok {
+			splitFiles = append(splitFiles, f)
+			splitBody[f] = &strings.Builder{}
+			splitRecs[f] = &strings.Builder{}
+		}
+	}
+	bodyOf := func(pkgPath string, main *strings.Builder, m map[string]*strings.Builder) *strings.Builder {
+		if f, ok := t.splitTo[pkgPath]; ok {
+			return m[f]
+		}
+		return main
 	}
 	if printShapes {
 		var sb strings.Builder
@@ -246,11 +289,11 @@ func translate(repo, pkgdir string, roots, fuels, params, ifaces, shapes, requir
 			if err != nil {
 				fi.skip = err.Error()
 			} else {
-				body.WriteString(text)
+				bodyOf(fi.pk.path, &body, splitBody).WriteString(text)
 				continue
 			}
 		}
-		body.WriteString("\n(* NOT TRANSLATED: " + fnKey(fi) + ": " + commentSafe(fi.skip) + " *)\n")
+		bodyOf(fi.pk.path, &body, splitBody).WriteString("\n(* NOT TRANSLATED: " + fnKey(fi) + ": " + commentSafe(fi.skip) + " *)\n")
 	}
 	// the functions that must be there
 	need := map[string]bool{}
@@ -294,14 +337,27 @@ func translate(repo, pkgdir string, roots, fuels, params, ifaces, shapes, requir
 				}
 			}
 		}
-		b.WriteString(t.record(s))
+		pp := ""
+		if s.obj.Pkg() != nil {
+			pp = s.obj.Pkg().Path()
+		}
+		bodyOf(pp, &b, splitRecs).WriteString(t.record(s))
 	}
 	for _, s := range t.sorder {
 		emit(s)
 	}
 	b.WriteString(body.String())
 	b.WriteString("\nEnd Gen.\n")
-	return header() + b.String(), nil
+	tail := "Import ListNotations.\nOpen Scope Z_scope.\n\nModule Gen.\n"
+	imports := ""
+	exports := ""
+	for _, f := range splitFiles {
+		base := strings.TrimSuffix(filepath.Base(f), ".v")
+		extraFiles[f] = header() + tail + splitRecs[f].String() + splitBody[f].String() + "\nEnd Gen.\n"
+		imports += "From GLGEN Require Import " + base + ".\n"
+		exports += "Export " + base + ".Gen.\n"
+	}
+	return header() + imports + tail + exports + b.String(), nil
 }
 
 func fnKey(fi *fnInfo) string {
@@ -514,6 +570,11 @@ func (t *tr) classify() {
 				if tv, ok := info.Types[x.X]; ok && t.objectOf(tv.Type) != nil {
 					fi.pure = false
 				}
+				if tv, ok := info.Types[x.X]; ok && !tv.IsType() {
+					if n := t.packedOf(tv.Type); n != nil {
+						addParam(fi, t.packedParam(n, x.Sel.Name))
+					}
+				}
 			case *ast.BinaryExpr:
 				if x.Op == token.QUO || x.Op == token.REM {
 					if tv := info.Types[x.Y]; tv.Value == nil {
@@ -531,6 +592,17 @@ func (t *tr) classify() {
 				}
 			case *ast.IncDecStmt:
 				t.noteAssign(fi, x.X)
+			case *ast.CompositeLit:
+				if tv, ok := info.Types[x]; ok {
+					if n := t.packedOf(tv.Type); n != nil {
+						addParam(fi, t.packedParam(n, ""))
+					}
+				}
+			case *ast.UnaryExpr:
+				if x.Op == token.ARROW && t.chans {
+					fi.pure = false
+					addParam(fi, param{"chan_recv", "Z -> M (unit)"})
+				}
 			case *ast.TypeAssertExpr:
 				if name, ok := t.assertParam(fi.pk, x); ok {
 					fi.pure = false
@@ -542,8 +614,18 @@ func (t *tr) classify() {
 						switch id.Name {
 						case "copy", "make", "panic", "append":
 							fi.pure = false
+							if tv, ok := info.Types[x]; ok && id.Name == "make" && t.chans {
+								if _, isChan := tv.Type.Underlying().(*types.Chan); isChan {
+									addParam(fi, param{"chan_make", "M (Z)"})
+								}
+							}
 						case "delete":
 							t.noteAssign(fi, x.Args[0])
+						case "close":
+							if t.chans {
+								fi.pure = false
+								addParam(fi, param{"chan_close", "Z -> M (unit)"})
+							}
 						case "new":
 							if tv, ok := info.Types[x]; ok && t.objectOf(tv.Type) != nil {
 								fi.pure = false
@@ -731,6 +813,35 @@ func (t *tr) inRepo(path string) bool {
 	return path == t.w.mod || strings.HasPrefix(path, t.w.mod+"/")
 }
 
+// packedOf: ty is a struct type whose values are opaque handles (--packed S)
+func (t *tr) packedOf(ty types.Type) *types.Named {
+	n, ok := types.Unalias(ty).(*types.Named)
+	if !ok {
+		return nil
+	}
+	if _, ok := n.Underlying().(*types.Struct); !ok {
+		return nil
+	}
+	if pk := n.Obj().Pkg(); pk == nil || !t.inRepo(pk.Path()) || !t.packed[n.Origin().Obj().Name()] {
+		return nil
+	}
+	return n
+}
+
+// packedParam: the pure parameter that builds (field "") or reads a field of a packed struct
+func (t *tr) packedParam(n *types.Named, field string) param {
+	st := n.Underlying().(*types.Struct)
+	name := n.Origin().Obj().Name()
+	if field == "" {
+		ty := ""
+		for i := 0; i < st.NumFields(); i++ {
+			ty += "Z -> "
+		}
+		return param{name + "_mk", ty + "Z"}
+	}
+	return param{name + "_" + field, "Z -> Z"}
+}
+
 // devirtSlice: ty is a named interface type declared outside the repository (a
 // --stdpkg package) that --devirt I=S maps to the named slice type S of the root
 // package; its values are *S (nil otherwise).  TRUSTED like every --devirt: the
@@ -766,6 +877,40 @@ func (t *tr) devirtSlice(ty types.Type) *types.Named {
 		return nil
 	}
 	return target
+}
+
+// isArrayField: --arrayfield S.f
+func (t *tr) isArrayField(sname, field string) bool {
+	for _, a := range stage11.arrayFields {
+		if a == sname+"."+field {
+			return true
+		}
+	}
+	return false
+}
+
+// arrayFieldSel: e is x.f with f a field listed by --arrayfield and x a pointer to its struct
+func (t *tr) arrayFieldSel(pk *pkgInfo, e ast.Expr) bool {
+	x, ok := ast.Unparen(e).(*ast.SelectorExpr)
+	if !ok {
+		return false
+	}
+	sel, ok := pk.info.Selections[x]
+	if !ok || sel.Kind() != types.FieldVal {
+		return false
+	}
+	if _, isArr := types.Unalias(sel.Type()).Underlying().(*types.Array); !isArr {
+		return false
+	}
+	tv, ok := pk.info.Types[x.X]
+	if !ok {
+		return false
+	}
+	if _, isPtr := types.Unalias(tv.Type).(*types.Pointer); !isPtr {
+		return false // a struct value would copy the array
+	}
+	n := t.structOf(tv.Type)
+	return n != nil && t.isArrayField(n.Origin().Obj().Name(), x.Sel.Name)
 }
 
 // objectOf: ty is a pointer to a struct type declared as an object type
@@ -1065,6 +1210,9 @@ func (t *tr) structOf(ty types.Type) *types.Named {
 	if t.objects[n.Origin().Obj().Name()] {
 		return nil // an object type is only used through pointers
 	}
+	if t.packed[n.Origin().Obj().Name()] {
+		return nil // a packed struct: a handle
+	}
 	return n
 }
 
@@ -1084,6 +1232,10 @@ func (t *tr) structInfoOf(at ast.Node, n *types.Named) *structInfo {
 				t.failf(at, "--via field %s.%s does not point to a translated struct", key.Name(), vf)
 			}
 			continue // threaded as an explicit parameter
+		}
+		if _, isArr := types.Unalias(st.Field(i).Type()).Underlying().(*types.Array); isArr && !t.isArrayField(key.Name(), st.Field(i).Name()) {
+			s.omitted = append(s.omitted, st.Field(i).Name())
+			continue
 		}
 		if t.inSubset(st.Field(i).Type()) {
 			s.fields = append(s.fields, st.Field(i))
@@ -1142,8 +1294,17 @@ func (t *tr) coqType(at ast.Node, ty types.Type) string {
 	if t.objectOf(ty) != nil {
 		return "Z" // an object id
 	}
+	if t.packedOf(ty) != nil {
+		return "Z" // a packed struct value: a handle
+	}
+	if _, isChan := ty.Underlying().(*types.Chan); isChan && t.chans {
+		return "Z" // a channel: a handle
+	}
 	if isEmptyInterface(ty) {
 		return "Z" // any: a handle
+	}
+	if arr, ok := ty.Underlying().(*types.Array); ok && len(stage11.arrayFields) > 0 && isIntegerType(arr.Elem()) {
+		return "gslice" // --arrayfield: a descriptor of the array (only as a listed struct field)
 	}
 	if ptrSliceOf(ty) {
 		return t.coqType(at, ty.(*types.Pointer).Elem())
@@ -1169,7 +1330,8 @@ func (t *tr) coqType(at ast.Node, ty types.Type) string {
 			return "gslice"
 		}
 	case *types.Map:
-		if isIntegerType(u.Key()) && (isIntegerType(u.Elem()) || t.objectOf(u.Elem()) != nil) {
+		_, chanElem := types.Unalias(u.Elem()).Underlying().(*types.Chan)
+		if isIntegerType(u.Key()) && (isIntegerType(u.Elem()) || t.objectOf(u.Elem()) != nil || (chanElem && t.chans)) {
 			t.usesPtr = true
 			return "gomap" // an association list value (lib/GoLitePtr.v)
 		}
@@ -1247,7 +1409,7 @@ func init() {
 		zlen znth zsub zsplice gslice mkSl s_arr s_off s_len s_cap nil_slice arr_get arr_set sl_get sl_cap sl_put wf_slice
 		load store reslice gocopy gomake step Next Done ctl Fall Return iter be_bytes be_put be_val be_get cast_id
 		Z N nat bool unit tt true false list nil cons fst snd pair negb andb orb length app nth firstn skipn repeat map
-		Some None option S O st c r_
+		Some None option S O st c r_ chan_make chan_close chan_recv
 		gomap mapnew mapfind mapget mapdel mapset maplen iter_objs fld_load fld_store obj_new obj_arr goappend b2z z2b
 		left right inl inr inleft inright exist existT ex_intro conj or_introl or_intror eq_refl I Eq Lt Gt Z0 Zpos Zneg xH xO xI N0 Npos
 		id not and or iff ex eq le lt ge gt plus mult minus pred min max fold_left fold_right rev In Forall seq combine split
@@ -1317,6 +1479,14 @@ func (t *tr) tryFunction(fi *fnInfo) (text string, err error) {
 func (t *tr) skeleton(fi *fnInfo) string {
 	sig := fi.obj.Type().(*types.Signature)
 	pre := fmt.Sprintf("%d>%d:", sig.Params().Len(), sig.Results().Len())
+	if t.effShape[fnKey(fi)] {
+		// strict: the nesting of the conditions (branches sorted) with, per statement, the calls and the
+		// reads (L) of object fields in source order -- for functions whose proofs depend on where the
+		// heap is read (two pointers may be equal)
+		t.effMode = true
+		defer func() { t.effMode = false }()
+		return pre + "eff:" + t.skelList(fi, fi.decl.Body.List)
+	}
 	full := t.skelList(fi, fi.decl.Body.List)
 	hasLoop := false
 	ast.Inspect(fi.decl.Body, func(n ast.Node) bool {
@@ -1345,6 +1515,40 @@ func (t *tr) skelCalls(fi *fnInfo, n ast.Node) string {
 	var b strings.Builder
 	if n == nil {
 		return ""
+	}
+	if t.effMode {
+		// the places written by this statement
+		target := map[ast.Expr]bool{}
+		rw := map[ast.Expr]bool{}
+		switch x := n.(type) {
+		case *ast.AssignStmt:
+			for _, l := range x.Lhs {
+				target[ast.Unparen(l)] = true
+				if x.Tok != token.ASSIGN && x.Tok != token.DEFINE {
+					rw[ast.Unparen(l)] = true
+				}
+			}
+		case *ast.IncDecStmt:
+			target[ast.Unparen(x.X)] = true
+			rw[ast.Unparen(x.X)] = true
+		}
+		ast.Inspect(n, func(m ast.Node) bool {
+			switch x := m.(type) {
+			case *ast.FuncLit, *ast.BlockStmt:
+				return false
+			case *ast.SelectorExpr:
+				sel, isSel := fi.pk.info.Selections[x]
+				if tv, ok := fi.pk.info.Types[x.X]; ok && isSel && sel.Kind() == types.FieldVal && t.objectOf(tv.Type) != nil {
+					// only the READS: a rewrite that reads a field at another point (before instead of
+					// after a write) may see another value when two pointers are equal; a dropped or
+					// changed WRITE must stay inside the shape, so that it breaks the theorem
+					if rw[x] || !target[x] {
+						b.WriteString("L" + x.Sel.Name + ";")
+					}
+				}
+			}
+			return true
+		})
 	}
 	ast.Inspect(n, func(n ast.Node) bool {
 		switch x := n.(type) {
